@@ -4,7 +4,7 @@ Seam: the real GeckoAsyncLocator.discover (its hello consumer, broadcast loop, t
 on VLoop/VNet; responders are scripted peers that answer every broadcast hello with a reply built
 by a reference encoder (identifier|name in latin-1), with a per-spa latency, multiplicity and loss.
 Enumerated: spa sets of size 0..3 (names incl. '|', non-ASCII latin-1, empty), latency per spa from
-{0.05, 0.95, 3.95, 4.05, 9.95, 10.05}, reply multiplicity {1,2}, filters {none, address, matching
+{0.05, 0.95, 3.95, 4.05, 9.95, 10.05}, reply multiplicity {1,2}, loss of the first 1..2 replies of one spa, filters {none, address, matching
 id, non-matching id, address+id}; timer-order deviations (consumer/termination-loop jitter).
 """
 from __future__ import annotations
@@ -33,10 +33,12 @@ FILTERS = ["none", "address", "id", "other-id", "address+id"]
 
 
 class Responder:
-    def __init__(self, spec, latency, mult):
+    def __init__(self, spec, latency, mult, lose_first=0):
         self.id, self.name, self.addr = spec
         self.latency = latency
         self.mult = mult
+        self.lose_first = lose_first  # the replies to the first k requests this spa hears are lost on the way back
+        self.heard = 0
         self.net = None
         self.sent = []  # arrival times of replies at the client
 
@@ -44,6 +46,9 @@ class Responder:
         if data != b"<HELLO>1</HELLO>":
             return
         reply = b"<HELLO>" + self.id + b"|" + self.name.encode("latin1") + b"</HELLO>"
+        self.heard += 1
+        if self.heard <= self.lose_first:
+            return
         for k in range(self.mult):
             self.net.send(self.addr, src, reply, base_delay=self.latency - self.net.latency + 0.001 * k)
             self.sent.append(self.net.loop.time() + self.latency + 0.001 * k)
@@ -56,8 +61,9 @@ def _run(ch, spas, filt, window):
     loop.batch_choices_enabled = window > 0
     net = VNet(loop)
     rs = []
-    for idx, lat, mult in spas:
-        r = Responder(SPAS[idx], lat, mult)
+    for sp in spas:
+        idx, lat, mult = sp[:3]
+        r = Responder(SPAS[idx], lat, mult, sp[3] if len(sp) > 3 else 0)
         net.add_peer(r.addr, r)
         rs.append(r)
     events = []
@@ -113,6 +119,9 @@ def _run(ch, spas, filt, window):
             elif not any(a <= t_ret + 1e-9 for a, rr in acc if rr is r):
                 why = ("phantom", f"listed {d.identifier!r} whose reply had not arrived")
         must = {r.id for a, r in acc if a <= t_ret - slack}
+        # reply loss: a spa that answers every request it hears, and whose reply to the FIRST request only was lost, is
+        # listed by any run that lasted the initial wait (the request is repeated every second)
+        must |= {r.id for r in heard if r.lose_first == 1 and r.latency <= 1.0 and passes(r) and t_ret >= T_INIT - 0.5}
         missing = must - set(ids)
         if why is None and missing:
             why = ("missing", f"responders {sorted(missing)} answered {slack:.1f}s+ before the return at {t_ret:.2f}s but are not listed")
@@ -166,10 +175,10 @@ def _job(job):
         why, obs = _run(ch, spas, filt, window)
         viol = []
         if why:
-            names = [SPAS[i][1] for i, _, _ in spas]
+            names = [SPAS[sp[0]][1] for sp in spas]
             cls = "pipe-in-name" if any("|" in n for n in names) else "plain"
             viol.append((f"C15|{why[0]}|{cls}|filter={filt}",
-                         f"spas {[(SPAS[i][0].decode('latin1'), SPAS[i][1], lat, m) for i, lat, m in spas]} filter={filt}: {why[1]}",
+                         f"spas {[(SPAS[sp[0]][0].decode('latin1'), SPAS[sp[0]][1]) + tuple(sp[1:]) for sp in spas]} (latency, multiplicity[, first replies lost]) filter={filt}: {why[1]}",
                          {"spas": [list(s) for s in spas], "filter": filt, "window": window,
                           "prefix": [list(p) for p in ch.trace]}))
         return {"violations": viol, "obs": obs, "end": obs}
@@ -195,6 +204,16 @@ def run(ctx):
         for tr in itertools.combinations(range(4), 3):
             for ls in itertools.product(lats3, repeat=3):
                 plans.append((tuple((i, l, 1) for i, l in zip(tr, ls)), f, 0.0))
+    # reply loss: the reply to the first request (or the first two) of one spa is lost, alone and next to a spa that is heard at once
+    for f in FILTERS:
+        for i in range(len(SPAS)):
+            for k in (1, 2):
+                for lat in (0.05, 0.95):
+                    plans.append((((i, lat, 1, k),), f, 0.0))
+        for i, j in itertools.permutations(range(4), 2):
+            for k in (1, 2):
+                plans.append((((i, 0.05, 1, 0), (j, 0.05, 1, k)), f, 0.0))
+                plans.append((((i, 0.05, 1, k), (j, 0.95, 2, 0)), f, 0.0))
     execs = 0
     states = set()
     jobs = [(p, ()) for p in plans]
@@ -222,7 +241,9 @@ def run(ctx):
     ctx.set("traces_validated_against_impl", execs)
     ctx.sample({"spas": [["SPA00:01:02:03:04:05", "My Spa", 3.95, 1], ["SPA30:31:32:33:34:35", "", 4.05, 1]], "filter": "none",
                 "oracle": "each answering spa listed once, fields intact, return at max(4, first reply)+slack <= 10.2 s, endpoint closed, no LOC task"})
-    ctx.assume("replies are built by a reference encoder (identifier|name, latin-1); responders answer every broadcast")
+    ctx.assume("replies are built by a reference encoder (identifier|name, latin-1); responders answer every broadcast they hear")
+    ctx.assume("reply loss is modelled as 'the replies to the first k requests a spa hears are lost'; a spa that lost only its first "
+               "reply must be listed by a run that lasts the initial wait, i.e. the request is repeated within the initial wait")
 
 
 def replay(ctx, data):
